@@ -68,6 +68,13 @@ Section Spec.
   Definition g2_spec (u v x y : list N) : N := be_to_N (cmac x (u ++ v ++ y)) mod 2 ^ 32.
 End Spec.
 
+(* what the theorems assume of the block cipher: a 16 octet key and a 16 octet block give a 16 octet block *)
+Definition block_cipher (aes : list N -> list N -> list N) : Prop :=
+  forall k b, block k -> length b = 16%nat -> block (aes k b).
+(* what is assumed of uECC_valid_public_key (64 octets X || Y, big endian): it decides the curve equation *)
+Definition decides_p256 (uecc_valid : list N -> bool) : Prop :=
+  forall key, length key = 64%nat -> uecc_valid key = valid_be key.
+
 (* ---------------------------------------------------------------- C38 *)
 (* what a displayed passkey / temporary key must be: the 128 bit value, least significant octet
    first, of a number below 10^6 (Vol 3 Part H 2.3.5.2: 000000 .. 999999) *)
